@@ -20,7 +20,8 @@ CONSTANTS Classes,        \* value classes enumerated (subset of DOMAIN ClassCha
           AbsentModes,    \* subset of {"none", "empty"}: how the harness passes an absent element
           Schemes, Auths, Frags   \* bounds of the foreign domain
 
-VARIABLE case
+VARIABLES case,   \* the abstract case (a record of class names / small numbers)
+          loc     \* its location (derived once; AllAbsent where the case has none)
 
 (* ------------------------------------------------------------------ generic text *)
 RECURSIVE CatFrom(_, _)
@@ -33,9 +34,10 @@ RECURSIVE FindFrom(_, _, _)
 FindFrom(s, c, i) == IF i > Len(s) THEN 0 ELSE IF s[i] = c THEN i ELSE FindFrom(s, c, i + 1)
 Find(s, c) == FindFrom(s, c, 1)       \* index of the first c in s, 0 if there is none
 
+\* (TLC re-evaluates a LET definition at every use: intermediate results are passed as operator arguments)
 RECURSIVE Split(_, _)
-Split(s, c) == LET i == Find(s, c) IN
-               IF i = 0 THEN <<s>> ELSE <<SubSeq(s, 1, i - 1)>> \o Split(SubSeq(s, i + 1, Len(s)), c)
+SplitAt(s, c, i) == IF i = 0 THEN <<s>> ELSE <<SubSeq(s, 1, i - 1)>> \o Split(SubSeq(s, i + 1, Len(s)), c)
+Split(s, c) == SplitAt(s, c, Find(s, c))      \* like str.split: Split("", c) = <<"">>
 
 SetMax(S) == CHOOSE x \in S : \A y \in S : y <= x
 
@@ -59,8 +61,8 @@ HexVal(c) == IF c \in Digit THEN c - 48
              ELSE IF c \in 65..70 THEN c - 55
              ELSE IF c \in 97..102 THEN c - 87 ELSE 99
 EncByte(b, lower) == <<37, Hex(b \div 16, lower), Hex(b % 16, lower)>>
-EncChar(c, lower) == IF c \in Unreserved THEN <<c>>
-                     ELSE LET u == Utf8(c) IN Cat([i \in 1..Len(u) |-> EncByte(u[i], lower)])
+EncBytes(u, lower) == Cat([i \in 1..Len(u) |-> EncByte(u[i], lower)])
+EncChar(c, lower) == IF c \in Unreserved THEN <<c>> ELSE EncBytes(Utf8(c), lower)
 Enc(s, lower) == Cat([i \in 1..Len(s) |-> EncChar(s[i], lower)])
 \* application/x-www-form-urlencoded flavour: a space is written "+"
 EncForm(s, lower) == Cat([i \in 1..Len(s) |-> IF s[i] = 32 THEN <<43>> ELSE EncChar(s[i], lower)])
@@ -102,7 +104,8 @@ RootCP == <<115, 100, 99, 46, 99, 116, 120, 116, 46, 108, 111, 99, 46, 100, 101,
 AllAbsent == [e \in ElemSet |-> <<>>]
 
 Bit(m, i) == ((m \div (2 ^ (i - 1))) % 2) = 1
-MaskSet(m) == {Elements[i] : i \in {j \in 1..6 : Bit(m, j)}}
+MaskSets == [m \in 0..63 |-> {Elements[i] : i \in {j \in 1..6 : Bit(m, j)}}]
+MaskSet(m) == MaskSets[m]
 Widen(l, S) == [e \in ElemSet |-> IF e \in S THEN <<>> ELSE l[e]]
 
 \* a (the location a device published) is inside b (the location searched for)
@@ -113,46 +116,46 @@ Variants == [plus : BOOLEAN, lower : BOOLEAN]
 Ext(l, lower) == Enc(Join([i \in 1..6 |-> Enc(l[Elements[i]], lower)], <<47>>), lower)   \* GLUE 9.4.1.1 fallback
 PresentSeq(l) == SelectSeq(Elements, LAMBDA e : l[e] # <<>>)
 QPair(l, e, v) == KeyCP[e] \o <<61>> \o (IF v.plus THEN EncForm(l[e], v.lower) ELSE Enc(l[e], v.lower))
-Query(l, v) == LET ps == PresentSeq(l) IN Join([i \in 1..Len(ps) |-> QPair(l, ps[i], v)], <<38>>)
-Scope(l, v) == LET q == Query(l, v) IN
-               SchemeCP \o <<58, 47>> \o Enc(RootCP, v.lower) \o <<47>> \o Ext(l, v.lower)
-               \o (IF q = <<>> THEN <<>> ELSE <<63>> \o q)
+QueryOf(l, v, ps) == Join([i \in 1..Len(ps) |-> QPair(l, ps[i], v)], <<38>>)
+Query(l, v) == QueryOf(l, v, PresentSeq(l))
+WithQuery(head, q) == head \o (IF q = <<>> THEN <<>> ELSE <<63>> \o q)
+Scope(l, v) == WithQuery(SchemeCP \o <<58, 47>> \o Enc(RootCP, v.lower) \o <<47>> \o Ext(l, v.lower), Query(l, v))
 
 (* parsing: RFC 3986 appendix B split, then the location reading of path and query *)
 SchemeChars == Upper \cup LowerC \cup Digit \cup {43, 45, 46}
-SplitUrl(s) ==
-  LET colon == Find(s, 58)
-      hasScheme == colon > 1 /\ s[1] \in (Upper \cup LowerC) /\ \A i \in 1..(colon - 1) : s[i] \in SchemeChars
-      scheme == IF hasScheme THEN Lower(SubSeq(s, 1, colon - 1)) ELSE <<>>
-      r1 == IF hasScheme THEN SubSeq(s, colon + 1, Len(s)) ELSE s
-      hash == Find(r1, 35)
-      r2 == IF hash = 0 THEN r1 ELSE SubSeq(r1, 1, hash - 1)
-      qm == Find(r2, 63)
-      hier == IF qm = 0 THEN r2 ELSE SubSeq(r2, 1, qm - 1)
-      query == IF qm = 0 THEN <<>> ELSE SubSeq(r2, qm + 1, Len(r2))
-      hasAuth == Len(hier) >= 2 /\ hier[1] = 47 /\ hier[2] = 47
-      afterAuth == IF hasAuth THEN SubSeq(hier, 3, Len(hier)) ELSE hier
-      sl == Find(afterAuth, 47)
-      path == IF ~hasAuth THEN hier ELSE IF sl = 0 THEN <<>> ELSE SubSeq(afterAuth, sl, Len(afterAuth))
-  IN [scheme |-> scheme, auth |-> hasAuth, path |-> path, query |-> query]
+HasScheme(s, colon) == colon > 1 /\ s[1] \in (Upper \cup LowerC) /\ \A i \in 1..(colon - 1) : s[i] \in SchemeChars
+UrlPathB(a, sl) == IF sl = 0 THEN <<>> ELSE SubSeq(a, sl, Len(a))
+UrlPathA(a) == UrlPathB(a, Find(a, 47))
+UrlPath(hier, hasAuth) == IF ~hasAuth THEN hier ELSE UrlPathA(SubSeq(hier, 3, Len(hier)))
+UrlE(scheme, hier, query, hasAuth) == [scheme |-> scheme, auth |-> hasAuth, path |-> UrlPath(hier, hasAuth), query |-> query]
+UrlD(scheme, r2, qm) == IF qm = 0 THEN UrlE(scheme, r2, <<>>, Len(r2) >= 2 /\ r2[1] = 47 /\ r2[2] = 47)
+                        ELSE UrlE(scheme, SubSeq(r2, 1, qm - 1), SubSeq(r2, qm + 1, Len(r2)),
+                                  qm >= 3 /\ r2[1] = 47 /\ r2[2] = 47)
+UrlC(scheme, r2) == UrlD(scheme, r2, Find(r2, 63))
+UrlB(scheme, r1, hash) == UrlC(scheme, IF hash = 0 THEN r1 ELSE SubSeq(r1, 1, hash - 1))      \* fragment removed
+UrlA(s, colon, hasScheme) == IF hasScheme
+                             THEN UrlB(Lower(SubSeq(s, 1, colon - 1)), SubSeq(s, colon + 1, Len(s)),
+                                       Find(SubSeq(s, colon + 1, Len(s)), 35))
+                             ELSE UrlB(<<>>, s, Find(s, 35))
+SplitUrlAt(s, colon) == UrlA(s, colon, HasScheme(s, colon))
+SplitUrl(s) == SplitUrlAt(s, Find(s, 58))     \* [scheme (lower case), auth (has "//authority"), path, query]
 
-QueryLoc(q, plus) ==
-  LET pieces == Split(q, 38)
-      Pair(p) == LET i == Find(p, 61) IN
-                 IF i = 0 THEN [ok |-> FALSE, k |-> <<>>, v |-> <<>>]
-                 ELSE [ok |-> TRUE, k |-> Dec(SubSeq(p, 1, i - 1), plus), v |-> Dec(SubSeq(p, i + 1, Len(p)), plus)]
-      pairs == [i \in 1..Len(pieces) |-> Pair(pieces[i])]
-      ValueOf(e) == LET idx == {i \in 1..Len(pairs) : pairs[i].ok /\ pairs[i].k = KeyCP[e] /\ pairs[i].v # <<>>} IN
-                    IF idx = {} THEN <<>> ELSE pairs[SetMax(idx)].v
-  IN [e \in ElemSet |-> ValueOf(e)]
+QPairAt(p, plus, i) == IF i = 0 THEN [ok |-> FALSE, k |-> <<>>, v |-> <<>>]
+                       ELSE [ok |-> TRUE, k |-> Dec(SubSeq(p, 1, i - 1), plus), v |-> Dec(SubSeq(p, i + 1, Len(p)), plus)]
+QPairs(pieces, plus) == [i \in 1..Len(pieces) |-> QPairAt(pieces[i], plus, Find(pieces[i], 61))]
+\* a pair without "=" or with an empty value says nothing; of repeated keys the last one counts
+LastOf(pairs, idx) == IF idx = {} THEN <<>> ELSE pairs[SetMax(idx)].v
+ValueOf(pairs, e) == LastOf(pairs, {i \in 1..Len(pairs) : pairs[i].ok /\ pairs[i].k = KeyCP[e] /\ pairs[i].v # <<>>})
+LocOfPairs(pairs) == [e \in ElemSet |-> ValueOf(pairs, e)]
+QueryLoc(q, plus) == LocOfPairs(QPairs(Split(q, 38), plus))
 
 \* kind: "other" (not a location scope), "malformed" (location scheme, not /root/ext), "loc"
-Parse(s, plus) ==
-  LET u == SplitUrl(s)
-      segs == Split(u.path, 47) IN
-  IF u.scheme # SchemeCP THEN [kind |-> "other", root |-> <<>>, loc |-> AllAbsent]
-  ELSE IF u.auth \/ Len(segs) # 3 \/ segs[1] # <<>> THEN [kind |-> "malformed", root |-> <<>>, loc |-> AllAbsent]
+ParseSegs(u, segs, plus) ==
+  IF u.auth \/ Len(segs) # 3 \/ segs[1] # <<>> THEN [kind |-> "malformed", root |-> <<>>, loc |-> AllAbsent]
   ELSE [kind |-> "loc", root |-> Dec(segs[2], FALSE), loc |-> QueryLoc(u.query, plus)]
+ParseUrl(u, plus) == IF u.scheme # SchemeCP THEN [kind |-> "other", root |-> <<>>, loc |-> AllAbsent]
+                     ELSE ParseSegs(u, Split(u.path, 47), plus)
+Parse(s, plus) == ParseUrl(SplitUrl(s), plus)
 
 IsLoc(p, l) == p.kind = "loc" /\ p.root = RootCP /\ p.loc = l
 
@@ -206,21 +209,19 @@ ChangePlan == [n \in 1..NC |-> <<ChangeMask(ChgI(n), ChgJ(n)), ChgI(n), ChgK(n)>
 Others(l) == [i \in 1..6 |-> [k \in 1..4 |-> Other(l[Elements[i]], k)]]
 
 RefVariants == {v \in Variants : ~v.plus}     \* renderings every URI reader must understand
-LocPayload(c) == LET l == LocOf(c) IN
+LocPayload(c, l) ==
   [c |-> c, loc |-> l, others |-> Others(l),
    refs |-> [lower |-> Scope(l, [plus |-> FALSE, lower |-> TRUE]), upper |-> Scope(l, [plus |-> FALSE, lower |-> FALSE])]]
 
 (* laws of the reference (checked by TLC over the whole domain) *)
-RoundTripLaw == LET l == LocOf(case) IN
-                \A v \in Variants : LET s == Scope(l, v) IN
-                                     /\ IsLoc(Parse(s, TRUE), l)
-                                     /\ (~v.plus => IsLoc(Parse(s, FALSE), l))
-WidenLaw == LET l == LocOf(case) IN \A n \in 1..NW : Inside(l, WidenQ(l, n))
-ChangeLaw == LET l == LocOf(case) IN \A n \in 1..NC : ~Inside(l, ChangeQ(l, n))
-PresenceLaw == LET l == LocOf(case) IN \A i \in 1..6 : (l[Elements[i]] # <<>>) = Bit(case.pat, i)
-\* the reference scope is plain ASCII without blanks or control characters
-AsciiLaw == LET l == LocOf(case) IN
-            \A v \in Variants : LET s == Scope(l, v) IN {s[i] : i \in 1..Len(s)} \subseteq 33..126
+RoundTripLaw == \A v \in Variants : LET s == Scope(loc, v) IN
+                                     /\ IsLoc(Parse(s, TRUE), loc)
+                                     /\ (~v.plus => IsLoc(Parse(s, FALSE), loc))
+                                     \* the reference scope is plain ASCII without blanks or control characters
+                                     /\ {s[i] : i \in 1..Len(s)} \subseteq 33..126
+WidenLaw == \A n \in 1..NW : Inside(loc, WidenQ(loc, n))
+ChangeLaw == \A n \in 1..NC : ~Inside(loc, ChangeQ(loc, n))
+PresenceLaw == \A i \in 1..6 : (loc[Elements[i]] # <<>>) = Bit(case.pat, i)
 
 (* ------------------------------------------------------------------ domain 2: foreign scopes *)
 SchemeText == [loc |-> SchemeCP,
@@ -303,21 +304,22 @@ IdClasses == {"fallback", "noext", "defaultroot_noext", "noroot", "two", "extsla
 IdentCases == [kind : {"ident"}, id : IdClasses, pat : {1, 9, 41, 63}]
 IdentLoc(c) == LocOf([kind |-> "loc", pat |-> c.pat, cls |-> "alnum", shape |-> "mid", absent |-> "none"])
 IdentPayload(c) == [c |-> c, loc |-> IdentLoc(c)]
+IdentLaw == loc # AllAbsent
 \* inside its own location is demanded where the published scope carries the fallback identifier
 IdentJudged(c) == c.id \in {"fallback", "two"}
 
 (* ------------------------------------------------------------------ behaviours: one state per case *)
 Emit(payload) == PrintT(<<"CASE", ToJson(payload)>>)
 
-InitLoc == case \in LocCases
-InitForeign == case \in ForeignCases
-InitIdent == case \in IdentCases
-Next == FALSE /\ UNCHANGED case
-SpecLoc == InitLoc /\ [][Next]_case
-SpecForeign == InitForeign /\ [][Next]_case
-SpecIdent == InitIdent /\ [][Next]_case
+InitLoc == case \in LocCases /\ loc = LocOf(case)
+InitForeign == case \in ForeignCases /\ loc = AllAbsent
+InitIdent == case \in IdentCases /\ loc = IdentLoc(case)
+Next == FALSE /\ UNCHANGED <<case, loc>>
+SpecLoc == InitLoc /\ [][Next]_<<case, loc>>
+SpecForeign == InitForeign /\ [][Next]_<<case, loc>>
+SpecIdent == InitIdent /\ [][Next]_<<case, loc>>
 
-EmitLoc == Emit(LocPayload(case))
+EmitLoc == Emit(LocPayload(case, loc))
 EmitForeign == Emit(ForeignPayload(case))
 EmitIdent == Emit(IdentPayload(case))
 
